@@ -13,17 +13,17 @@ import (
 var QueryTimeoutMs = 10000
 
 type Solver struct {
-	cmd      *exec.Cmd
-	in       io.WriteCloser
-	out      *bufio.Reader
-	declared map[string]Sort
-	vars     []string
-	defined  map[int]bool
-	stack    []*Term
+	cmd                   *exec.Cmd
+	in                    io.WriteCloser
+	out                   *bufio.Reader
+	declared              map[string]Sort
+	vars                  []string
+	defined               map[int]bool
+	stack                 []*Term
 	TCheck, TPrep, TModel time.Duration
-	Queries  int
-	Time     time.Duration
-	log      io.Writer
+	Queries               int
+	Time                  time.Duration
+	log                   io.Writer
 }
 
 func NewSolver(bin string, args ...string) *Solver {
